@@ -35,6 +35,8 @@ REDIRECT = {
     "getentropy": "sim_fb_getentropy", "arc4random": "sim_fb_arc4random", "arc4random_buf": "sim_fb_arc4random_buf",
     "clock": "sim_fb_clock", "clock_gettime": "sim_fb_clock_gettime", "gettimeofday": "sim_fb_gettimeofday",
     "timespec_get": "sim_fb_timespec_get",
+    "fopen": "sim_fb_fopen", "open": "sim_fb_open", "read": "sim_fb_read", "fread": "sim_fb_fread",
+    "getenv": "sim_fb_getenv", "getpid": "sim_fb_getpid",
 }
 REDIRECT_MEM = {
     "memcpy": "sim_memcpy", "memmove": "sim_memmove", "memset": "sim_memset", "memcmp": "sim_memcmp", "bcmp": "sim_bcmp",
@@ -107,7 +109,11 @@ def build(cfg):
         def compile_lib(src):
             o = os.path.join(d, "lib_" + os.path.basename(src)[:-2] + ".o")
             run([cc, "-std=c11", "-c", "-DPOLYSEED_STATIC", "-I" + os.path.join(REPO, "include"), "-fPIC"] + libflags + [src, "-o", o])
-            run(["objcopy", "--redefine-syms=" + symfile, o])
+            extra = []
+            if "-fsanitize=address" not in " ".join(libflags):
+                # give the library's writable static data section names the linker provides bounds for (static-residue scan)
+                extra = ["--rename-section", ".data=polydata", "--rename-section", ".bss=polybss"]
+            run(["objcopy", "--redefine-syms=" + symfile] + extra + [o])
             return o
 
         def compile_h(src):
